@@ -2,10 +2,13 @@ package c17
 
 import (
 	"fmt"
+	"math/rand"
 	"sort"
+	"strconv"
 	"strings"
 	"time"
 
+	jdoc "github.com/jsightapi/jsight-schema-go-library/formats/json"
 	"github.com/jsightapi/jsight-schema-go-library/notations/jschema"
 
 	"verifharness/vh"
@@ -40,33 +43,90 @@ import (
 type schemaResult struct {
 	pos       int
 	desc, msg string
-	where     string // "AddType" or "Check"
+	where     string // "AddType <name>", "Check", "Validate" or "Example": the call that returned the first error
+	obs       observation
+}
+
+// naming: the file names the schemas of one case are created with. File names are labels: the error a schema
+// produces (code, position, the text it is rendered against) must not depend on them; in particular the empty
+// name - usual for schemas built in memory - must give a positioned error like any other name.
+type naming struct {
+	label    string
+	root     string
+	typeFile func(typeName string) string
+}
+
+var namings = []naming{
+	{"distinct names", "root", func(t string) string { return t }},
+	{"all names empty", "", func(string) string { return "" }},
+	{"root name empty", "", func(t string) string { return t }},
+	{"type names empty", "schema.jst", func(string) string { return "" }},
+	{"one name for all", "x.jst", func(string) string { return "x.jst" }},
+}
+
+func (nm naming) fileOf(victim string) string {
+	if victim == "root" {
+		return nm.root
+	}
+	return nm.typeFile(victim)
+}
+
+// entry points: a compile-phase error must come out of every call that compiles the schema
+var entryPoints = []string{"Check", "Validate", "Example"}
+
+func replayText(nm naming, entry, rootText string, types [][2]string) string {
+	var in strings.Builder
+	fmt.Fprintf(&in, "s := jschema.New(%q, %q)", nm.root, rootText)
+	for _, t := range types {
+		fmt.Fprintf(&in, "; s.AddType(%q, jschema.New(%q, %q))", t[0], nm.typeFile(t[0]), t[1])
+	}
+	switch entry {
+	case "Validate":
+		in.WriteString("; s.Validate(json.New(\"doc\", `{}`))")
+	case "Example":
+		in.WriteString("; s.Example()")
+	default:
+		in.WriteString("; s.Check()")
+	}
+	return in.String()
 }
 
 func checkSchema(rootText string, types [][2]string) (res schemaResult, timeout bool) {
+	return runSchema(namings[0], "Check", rootText, types)
+}
+
+// runSchema: AddType for every type, then the entry point; the first non-nil error is the result.
+func runSchema(nm naming, entry, rootText string, types [][2]string) (res schemaResult, timeout bool) {
 	ch := make(chan schemaResult, 1)
 	go func() {
 		var out schemaResult
 		p := vh.Recover(func() string {
-			s := jschema.New("root", rootText)
+			s := jschema.New(nm.root, rootText)
 			for _, t := range types {
-				if err := s.AddType(t[0], jschema.New(t[0], t[1])); err != nil {
-					out.pos, out.desc = errPos(err)
-					out.msg = err.Error()
+				if err := s.AddType(t[0], jschema.New(nm.typeFile(t[0]), t[1])); err != nil {
+					out.obs = observe(err)
 					out.where = "AddType " + t[0]
 					return ""
 				}
 			}
-			err := s.Check()
-			out.pos, out.desc = errPos(err)
-			out.where = "Check"
-			if err != nil {
-				out.msg = err.Error()
+			var err error
+			switch entry {
+			case "Validate":
+				err = s.Validate(jdoc.New("doc", "{}"))
+			case "Example":
+				_, err = s.Example()
+			default:
+				err = s.Check()
 			}
+			out.obs = observe(err)
+			out.where = entry
 			return ""
 		})
+		out.pos, out.desc, out.msg = out.obs.pos, out.obs.String(), out.obs.msg
 		if p != "" {
 			out.pos, out.desc = -3, p
+		} else if out.obs.panics != "" {
+			out.pos = -3
 		}
 		ch <- out
 	}()
@@ -89,75 +149,384 @@ func sortedNodes(m map[*sNode]int) []*sNode {
 	return ns
 }
 
+// genTable: root, @t1, @t2 (any kind, containers preferred), @s1 / @s2 (scalar types that own a breakable rule),
+// @o1 / @o2 (object types with at least one property; @o2 carries additionalProperties), @a0 (an object type that
+// inherits from @o1 in half of the tables). The root uses every type.
+// trefs: the literal examples annotated with a reference to @s1 / @s2.
+func genTable(r *rand.Rand) (g *vgen, trefs map[string][]*sNode) {
+	g = &vgen{r: r, types: map[string]*sNode{}, order: []string{"root", "@t1", "@t2", "@s1", "@s2", "@o1", "@o2", "@a0"}}
+	{ // @a0: in half of the tables it INHERITS the properties of @o1 (a valid allOf rule); it is checked before
+		// @o1 (types are checked in name order), so a defect planted inside @o1 is met in an inherited property
+		// first - and still belongs to the text (and file) of @o1.
+		a := newS("obj")
+		a.props = []*sProp{{key: "c0", val: newS("int"), optional: r.Intn(2) == 0}}
+		if r.Intn(2) == 0 {
+			a.extra = append(a.extra, [2]string{"allOf", []string{`"@o1"`, `["@o1"]`}[r.Intn(2)]})
+		}
+		g.types["@a0"] = a
+	}
+	for k := 0; k < 2; k++ { // @o1 / @o2
+		o := newS("obj")
+		keys := [][]string{{"p1", "p2", "p3"}, {"w1", "w2", "w3"}}[k]
+		for i, c := 0, 1+r.Intn(3); i < c; i++ {
+			o.props = append(o.props, &sProp{key: keys[i], optional: r.Intn(3) == 0, val: g.scalarSchema([]string{"int", "str", "bool", "float"}[r.Intn(4)])})
+		}
+		if k == 1 {
+			o.extra = append(o.extra, [2]string{"additionalProperties", `"string"`})
+		}
+		g.types[g.order[5+k]] = o
+	}
+	// @s1 / @s2: scalar types (integer, string) that own at least one rule an example can break
+	for k, kind := range []string{"int", "str"} {
+		t := g.scalarSchema(kind)
+		for g.violating(t) == "" {
+			t = g.scalarSchema(kind)
+		}
+		t.nullable = false
+		g.types[g.order[3+k]] = t
+	}
+	for lvl := 2; lvl >= 0; lvl-- {
+		t := g.schema(1+r.Intn(3), lvl)
+		for try := 0; try < 3 && t.kind != "obj" && t.kind != "arr"; try++ {
+			t = g.schema(2+r.Intn(2), lvl)
+		}
+		g.types[g.order[lvl]] = t
+	}
+	g.useAll()
+	// literal examples annotated with a reference to @s1 / @s2 (type rule or `or` list) inside the containers
+	trefs = map[string][]*sNode{}
+	for _, nm := range g.order[:3] {
+		t := g.types[nm]
+		if t.kind != "obj" || (nm != "root" && r.Intn(2) == 0) {
+			continue
+		}
+		for k := 1 + r.Intn(2); k > 0; k-- {
+			tr := newS("tref")
+			switch r.Intn(4) {
+			case 0:
+				tr.names = []string{"@s1", "@s2"}
+			case 1:
+				tr.names = []string{"@s2", "@s1"}
+			case 2:
+				tr.names = []string{"@s1"}
+			default:
+				tr.names = []string{"@s2"}
+			}
+			tr.nullable = r.Intn(5) == 0
+			at := r.Intn(len(t.props) + 1)
+			pr := &sProp{key: fmt.Sprintf("r%d", k), optional: r.Intn(4) == 0, val: tr}
+			t.props = append(t.props[:at:at], append([]*sProp{pr}, t.props[at:]...)...)
+			trefs[nm] = append(trefs[nm], tr)
+		}
+	}
+	return g, trefs
+}
+
+// useAll: the root must use the types, otherwise errors inside unused types could stay unreported
+func (g *vgen) useAll() {
+	root := g.types["root"]
+	if root.kind != "obj" {
+		obj := newS("obj")
+		obj.props = append(obj.props, &sProp{key: "v", val: root})
+		g.types["root"] = obj
+		root = obj
+	}
+	for _, nm := range g.order[1:] {
+		ref := newS("ref")
+		ref.names = []string{nm}
+		root.props = append(root.props, &sProp{key: "use" + nm[1:], val: ref})
+	}
+}
+
+// ---- compile-phase defects ------------------------------------------------------------------------------------------
+//
+// One FRESH node (a plain scalar / object / array / reference without rules of its own) that carries one defect
+// which only the phases after scanning can see, placed as a new property of an object of the victim (any depth),
+// as a new element of an array, or as the victim type's whole text. Anchors (calibrated on the unchanged tree,
+// they follow the property's "start of the offending value or key"):
+//
+//	node-level defects   (a rule that cannot be used on this node, an allOf rule that cannot be compiled, a type
+//	                      that does not exist or has the wrong kind, contradictory bounds, an example that
+//	                      contradicts its type rule)              -> first byte of the example value / bracket / shortcut
+//	key-level defects    (duplicate key, key shortcut to an undefined or non-string type) -> first byte of the key
+//	rule-level defects   (a rule given twice -> the value of the second one; a rule value of the wrong kind, an
+//	                      undefined enum rule -> the offending rule VALUE)
+type defect struct {
+	class  string
+	node   *sNode
+	rawKey string // key-level: the property is spelled with this key
+	anchor func(p *sPrinter, pr *sProp) int
+}
+
+func atValue(n *sNode) func(*sPrinter, *sProp) int {
+	return func(p *sPrinter, _ *sProp) int { return p.valueStart[n] }
+}
+
+func (g *vgen) plain(kind string) *sNode {
+	n := newS(strings.TrimPrefix(kind, "empty"))
+	switch kind {
+	case "obj":
+		n.props = []*sProp{{key: "q1", val: newS("int")}, {key: "q2", val: newS("str"), optional: g.r.Intn(2) == 0}}
+	case "arr":
+		n.items = []*sNode{newS("int")}
+	}
+	return n
+}
+
+var ruleKinds = []struct {
+	name, val string
+	on        string // kinds the rule can be used on
+}{
+	{"min", "1", "int float"}, {"max", "100", "int float"}, {"minLength", "0", "str"}, {"maxLength", "100", "str"},
+	{"regex", `"."`, "str"}, {"minItems", "0", "arr"}, {"maxItems", "9", "arr"}, {"precision", "3", "float"},
+	{"additionalProperties", "true", "obj"}, {"allOf", `"@o1"`, "obj"},
+}
+
+func (g *vgen) compileDefect(victim string) defect {
+	r := g.r
+	other := func(not string) string { // an object type that is not the victim
+		if not == "@o1" {
+			return "@o2"
+		}
+		if not == "@o2" || r.Intn(2) == 0 {
+			return "@o1"
+		}
+		return "@o2"
+	}
+	q := strconv.Quote
+	pick := func(a ...string) string { return a[r.Intn(len(a))] }
+	objWith := func(class, name, val string) defect {
+		n := g.plain(pick("obj", "obj", "emptyobj"))
+		n.extra = append(n.extra, [2]string{name, val})
+		return defect{class: class, node: n, anchor: atValue(n)}
+	}
+	for {
+		switch r.Intn(24) {
+		case 0:
+			return objWith("allOf-parent-undefined", "allOf", pick(`"@nope"`, `["@nope"]`, `["@nope", "@nope2"]`))
+		case 1:
+			return objWith("allOf-later-parent-undefined", "allOf", "["+q(other(victim))+`, "@nope"]`)
+		case 2:
+			return objWith("allOf-parent-not-an-object", "allOf", pick(`"@s1"`, `"@s2"`, `["@s2"]`, "["+q(other(victim))+`, "@s1"]`))
+		case 3:
+			n := g.plain(pick("arr", "emptyarr", "int", "str", "bool", "null", "float"))
+			n.extra = append(n.extra, [2]string{"allOf", q(other(victim))})
+			return defect{class: "allOf-on-a-non-object", node: n, anchor: atValue(n)}
+		case 4:
+			parent := other(victim)
+			n := g.plain("obj")
+			pp := g.types[parent].props
+			n.props = append(n.props, &sProp{key: pp[r.Intn(len(pp))].key, val: newS("int")})
+			n.extra = append(n.extra, [2]string{"allOf", pick(q(parent), "["+q(parent)+"]")})
+			return defect{class: "allOf-duplicate-key-of-child-and-parent", node: n, anchor: atValue(n)}
+		case 5:
+			if victim == "@o2" {
+				continue
+			}
+			n := g.plain(pick("obj", "emptyobj"))
+			n.extra = append(n.extra, [2]string{"additionalProperties", pick(`"integer"`, "false", `"@s1"`)}, [2]string{"allOf", `"@o2"`})
+			if r.Intn(2) == 0 {
+				n.extra[0], n.extra[1] = n.extra[1], n.extra[0]
+			}
+			return defect{class: "allOf-conflicting-additionalProperties", node: n, anchor: atValue(n)}
+		case 6:
+			if victim == "root" {
+				continue
+			}
+			return objWith("allOf-recursion", "allOf", pick(q(victim), "["+q(victim)+"]"))
+		case 7:
+			return objWith("allOf-empty-name-list", "allOf", "[]")
+		case 8, 9, 10:
+			rk := ruleKinds[r.Intn(len(ruleKinds))]
+			var kinds []string
+			for _, k := range []string{"int", "float", "str", "bool", "null", "obj", "emptyobj", "arr", "emptyarr"} {
+				if !strings.Contains(rk.on, strings.TrimPrefix(k, "empty")) {
+					kinds = append(kinds, k)
+				}
+			}
+			n := g.plain(kinds[r.Intn(len(kinds))])
+			n.extra = append(n.extra, [2]string{rk.name, rk.val})
+			return defect{class: "rule-not-applicable-to-the-node", node: n, anchor: atValue(n)}
+		case 11:
+			n := newS("ref")
+			n.names = []string{"@nope"}
+			return defect{class: "link-undefined-type-shortcut", node: n, anchor: atValue(n)}
+		case 12:
+			n := newS("or")
+			n.names = []string{"@s1", "@nope"}
+			if r.Intn(2) == 0 {
+				n.names = []string{"@nope", "@s2", "@s1"}
+			}
+			return defect{class: "link-undefined-type-in-or-shortcut", node: n, anchor: atValue(n)}
+		case 13:
+			n := g.plain(pick("int", "str", "bool"))
+			n.extra = append(n.extra, [2]string{"type", `"@nope"`})
+			return defect{class: "link-undefined-type-in-type-rule", node: n, anchor: atValue(n)}
+		case 14:
+			n := g.plain("int")
+			n.extra = append(n.extra, [2]string{"or", pick(`["@nope", "@s1"]`, `["@s1", "@nope"]`, `[{type: "@nope"}, "@s1"]`, `["@s1", {type: "@nope"}]`)})
+			return defect{class: "link-undefined-type-in-or-rule", node: n, anchor: atValue(n)}
+		case 15:
+			return objWith("link-undefined-type-in-additionalProperties", "additionalProperties", `"@nope"`)
+		case 16:
+			n := g.plain("int")
+			return defect{class: "link-undefined-type-in-key-shortcut", node: n, rawKey: "@nope", anchor: func(p *sPrinter, pr *sProp) int { return p.propKey[pr] }}
+		case 17:
+			n := g.plain("int")
+			return defect{class: "key-shortcut-to-a-non-string-type", node: n, rawKey: pick("@s1", other(victim)), anchor: func(p *sPrinter, pr *sProp) int { return p.propKey[pr] }}
+		case 18:
+			n := g.plain(pick("int", "str", "bool"))
+			n.extra = append(n.extra, [2]string{"type", pick(q(other(victim)), `"object"`, `"array"`, `"null"`)})
+			return defect{class: "example-of-another-kind-than-its-type-rule", node: n, anchor: atValue(n)}
+		case 19:
+			n := g.plain(pick("int", "str"))
+			n.extra = append(n.extra, [2]string{"type", pick(`"foo"`, `"Integer"`, `"int"`)})
+			return defect{class: "unknown-type-name", node: n, anchor: atValue(n)}
+		case 20:
+			var n *sNode
+			switch r.Intn(3) {
+			case 0:
+				n = g.plain(pick("int", "float"))
+				n.extra = append(n.extra, [2]string{"min", "50"}, [2]string{"max", "-50"})
+			case 1:
+				n = g.plain("str")
+				n.extra = append(n.extra, [2]string{"minLength", "70"}, [2]string{"maxLength", "0"})
+			default:
+				n = g.plain("arr")
+				n.extra = append(n.extra, [2]string{"minItems", "5"}, [2]string{"maxItems", "0"})
+			}
+			if r.Intn(2) == 0 {
+				n.extra[0], n.extra[1] = n.extra[1], n.extra[0]
+			}
+			return defect{class: "contradictory-bounds", node: n, anchor: atValue(n)}
+		case 21:
+			n := g.plain("int")
+			n.extra = append(n.extra, [2]string{"min", "-100"}, [2]string{"max", "100"}, [2]string{pick("min", "max"), "7"})
+			return defect{class: "rule-given-twice", node: n, anchor: func(p *sPrinter, _ *sProp) int { rv := p.ruleValue[n]; return rv[len(rv)-1] }}
+		case 22:
+			n := g.plain(pick("int", "str"))
+			switch r.Intn(3) {
+			case 0:
+				n.extra = append(n.extra, [2]string{"nullable", pick("1", `"yes"`, "null")})
+			case 1:
+				n.extra = append(n.extra, [2]string{"optional", pick("0", `"no"`)})
+			default:
+				n.extra = append(n.extra, [2]string{"enum", "@nope"})
+			}
+			return defect{class: "rule-value-unusable", node: n, anchor: func(p *sPrinter, _ *sProp) int { rv := p.ruleValue[n]; return rv[len(rv)-1] }}
+		case 23:
+			n := g.plain("bool")
+			return defect{class: "duplicate-key", node: n, rawKey: "dup", anchor: func(p *sPrinter, pr *sProp) int { return p.propKey[pr] }}
+		}
+	}
+}
+
+// containers of a schema tree (not through references)
+func containers(n *sNode, objs, arrs *[]*sNode) {
+	switch n.kind {
+	case "obj":
+		*objs = append(*objs, n)
+		for _, p := range n.props {
+			containers(p.val, objs, arrs)
+		}
+	case "arr":
+		if len(n.items) > 0 && n.maxItems < 0 {
+			*arrs = append(*arrs, n)
+		}
+		for _, it := range n.items {
+			containers(it, objs, arrs)
+		}
+	}
+}
+
+func (g *vgen) canHost(victim string, d defect) bool {
+	var objs, arrs []*sNode
+	containers(g.types[victim], &objs, &arrs)
+	switch {
+	case d.rawKey == "dup":
+		for _, o := range objs {
+			if len(o.props) > 0 {
+				return true
+			}
+		}
+		return false
+	case d.rawKey != "":
+		return len(objs) > 0
+	case victim == "@s1" || victim == "@s2":
+		return false // the literal examples of the referring nodes are generated from these types
+	case victim == "root":
+		return true // an object by construction
+	}
+	return true // whole text of the type
+}
+
+// place puts the defect into the victim type; returns the property that carries it (nil for an array element
+// or a whole type) and a description of the site.
+func (g *vgen) place(victim string, d defect) (pr *sProp, site string) {
+	r := g.r
+	var objs, arrs []*sNode
+	containers(g.types[victim], &objs, &arrs)
+	if d.rawKey == "dup" { // a second property with the key of an existing one
+		var cand []*sNode
+		for _, o := range objs {
+			if len(o.props) > 0 {
+				cand = append(cand, o)
+			}
+		}
+		o := cand[r.Intn(len(cand))] // the root always qualifies (it uses the types)
+		pr = &sProp{key: o.props[r.Intn(len(o.props))].key, val: d.node}
+		o.props = append(o.props, pr)
+		return pr, "property"
+	}
+	whole := d.rawKey == "" && victim != "@s1" && victim != "@s2" && (victim != "root" || (d.node.kind == "obj")) && (len(objs) == 0 || r.Intn(4) == 0)
+	if whole {
+		g.types[victim] = d.node
+		if victim == "root" {
+			g.useAll()
+		}
+		return nil, "whole-text"
+	}
+	if d.rawKey == "" && len(arrs) > 0 && r.Intn(3) == 0 {
+		a := arrs[r.Intn(len(arrs))]
+		a.items = append(a.items, d.node)
+		return nil, "array-element"
+	}
+	o := objs[r.Intn(len(objs))]
+	pr = &sProp{key: fmt.Sprintf("zq%d", r.Intn(9)), val: d.node, optional: r.Intn(4) == 0, rawKey: d.rawKey}
+	at := r.Intn(len(o.props) + 1)
+	o.props = append(o.props[:at:at], append([]*sProp{pr}, o.props[at:]...)...)
+	return pr, "property"
+}
+
 func runSchemaPos(rep *vh.Report) {
 	r := vh.NewRand(17004)
 	n := vh.Pick(6000, 120000)
 	for i := 0; i < n; i++ {
-		g := &vgen{r: r, types: map[string]*sNode{}, order: []string{"root", "@t1", "@t2", "@s1", "@s2"}}
-		// @s1 / @s2: scalar types (integer, string) that own at least one rule an example can break
-		for k, kind := range []string{"int", "str"} {
-			t := g.scalarSchema(kind)
-			for g.violating(t) == "" {
-				t = g.scalarSchema(kind)
-			}
-			t.nullable = false
-			g.types[g.order[3+k]] = t
-		}
-		for lvl := 2; lvl >= 0; lvl-- {
-			t := g.schema(1+r.Intn(3), lvl)
-			for try := 0; try < 3 && t.kind != "obj" && t.kind != "arr"; try++ {
-				t = g.schema(2+r.Intn(2), lvl)
-			}
-			g.types[g.order[lvl]] = t
-		}
-		// the root must use the types, otherwise errors inside unused types could stay unreported
-		if root := g.types["root"]; root.kind == "obj" {
-			for _, nm := range g.order[1:] {
-				ref := newS("ref")
-				ref.names = []string{nm}
-				root.props = append(root.props, &sProp{key: "use" + nm[1:], val: ref})
-			}
-		} else {
-			obj := newS("obj")
-			obj.props = append(obj.props, &sProp{key: "v", val: root})
-			for _, nm := range g.order[1:] {
-				ref := newS("ref")
-				ref.names = []string{nm}
-				obj.props = append(obj.props, &sProp{key: "use" + nm[1:], val: ref})
-			}
-			g.types["root"] = obj
-		}
-		// literal examples annotated with a reference to @s1 / @s2 (type rule or `or` list) inside the containers
-		trefs := map[string][]*sNode{}
-		for _, nm := range g.order[:3] {
-			t := g.types[nm]
-			if t.kind != "obj" || (nm != "root" && r.Intn(2) == 0) {
-				continue
-			}
-			for k := 1 + r.Intn(2); k > 0; k-- {
-				tr := newS("tref")
-				switch r.Intn(4) {
-				case 0:
-					tr.names = []string{"@s1", "@s2"}
-				case 1:
-					tr.names = []string{"@s2", "@s1"}
-				case 2:
-					tr.names = []string{"@s1"}
-				default:
-					tr.names = []string{"@s2"}
-				}
-				tr.nullable = r.Intn(5) == 0
-				at := r.Intn(len(t.props) + 1)
-				pr := &sProp{key: fmt.Sprintf("r%d", k), optional: r.Intn(4) == 0, val: tr}
-				t.props = append(t.props[:at:at], append([]*sProp{pr}, t.props[at:]...)...)
-				trefs[nm] = append(trefs[nm], tr)
-			}
-		}
+		g, trefs := genTable(r)
 		victim := g.order[r.Intn(len(g.order))]
+		if r.Intn(4) == 0 {
+			victim = "root"
+		}
+		class := []string{"stray-before-value", "stray-after-value", "stray-before-key", "stray-after-root", "truncated", "truncated", "unknown-rule", "example-breaks-rule", "example-breaks-referenced-type", "example-breaks-referenced-type",
+			"compile", "compile", "compile", "compile", "compile", "compile"}[r.Intn(16)]
+		var df defect
+		var dprop *sProp
+		if class == "compile" {
+			for {
+				df = g.compileDefect(victim)
+				if g.canHost(victim, df) {
+					break
+				}
+				victim = g.order[r.Intn(len(g.order))]
+			}
+			var site string
+			dprop, site = g.place(victim, df)
+			class = df.class
+			rep.Stat("schema_compile_site_" + site)
+		}
 		// first print: collect marks of the victim
 		sp := newSPrinter(g)
 		sp.print(g.types[victim], 0, "", "", false)
-		class := []string{"stray-before-value", "stray-after-value", "stray-before-key", "stray-after-root", "truncated", "truncated", "unknown-rule", "example-breaks-rule", "example-breaks-referenced-type", "example-breaks-referenced-type"}[r.Intn(10)]
 		if class == "example-breaks-referenced-type" {
 			var cands []string
 			for _, nm := range g.order[:3] {
@@ -253,6 +622,8 @@ func runSchemaPos(rep *vh.Report) {
 			} else {
 				rep.Stat("schema_tref_by_or_list")
 			}
+		default: // a compile-phase defect
+			want = df.anchor(sp, dprop)
 		}
 		texts[victim] = txt
 		var types [][2]string
@@ -264,35 +635,41 @@ func runSchemaPos(rep *vh.Report) {
 			place = "type"
 		}
 		rep.Stat("schema_" + class + "_in_" + place)
-		var in strings.Builder
-		fmt.Fprintf(&in, "s := jschema.New(\"root\", %q)", texts["root"])
-		for _, t := range types {
-			fmt.Fprintf(&in, "; s.AddType(%q, jschema.New(%q, %q))", t[0], t[0], t[1])
-		}
-		in.WriteString("; s.Check()")
-		rep.Case(in.String(), true)
-		got, to := checkSchema(texts["root"], types)
-		if to {
-			rep.AddDiff(vh.Diff{Component: "C17-schema-pos", Input: in.String(), Impl: "TIMEOUT", Model: "Check returns"})
-			return
-		}
-		model := fmt.Sprintf("ParsingError with Position() == %d in the text of %s (class %s)", want, victim, class)
-		if got.pos != want {
-			rep.AddDiff(vh.Diff{Component: "C17-schema-pos", Input: in.String(), Impl: got.where + ": " + got.desc + " | " + got.msg, Model: model})
-			continue
-		}
-		// rendering: file, line, shown source text and caret of the text the position belongs to
-		c := []byte(txt)
-		if want < len(c) {
-			num, src, caret, ok := refRender(c, want, classify(c))
-			tail := fmt.Sprintf("\n\tin line %d on file %s\n\t> ", num, victim)
-			good := strings.Contains(got.msg, tail)
-			if ok {
-				tail += src + "\n\t--" + caret
-				good = strings.HasSuffix(got.msg, tail)
+		// Every case runs twice: under distinct file names through Check, and under another naming (all names
+		// empty, only the root's / only the types' name empty, one shared name) through Check / Validate / Example.
+		nm2 := namings[1+r.Intn(len(namings)-1)]
+		entry2 := entryPoints[r.Intn(len(entryPoints))]
+		rep.Stat("schema_second_run_" + nm2.label)
+		var first schemaResult
+		for run, cfg := range []struct {
+			nm    naming
+			entry string
+		}{{namings[0], "Check"}, {nm2, entry2}} {
+			in := replayText(cfg.nm, cfg.entry, texts["root"], types)
+			rep.Case(in, true)
+			got, to := runSchema(cfg.nm, cfg.entry, texts["root"], types)
+			if to {
+				rep.AddDiff(vh.Diff{Component: "C17-schema-pos", Input: in, Impl: "TIMEOUT", Model: cfg.entry + " returns"})
+				return
 			}
-			if !good {
-				rep.AddDiff(vh.Diff{Component: "C17-schema-pos", Input: in.String(), Impl: fmt.Sprintf("%q", got.msg), Model: fmt.Sprintf("message ends with %q (file, line, source text and caret of %s at offset %d)", tail, victim, want)})
+			fileName := cfg.nm.fileOf(victim)
+			model := fmt.Sprintf("a positioned error (errors.DocumentError) with Position() == %d in the text of %s, file %q (class %s)", want, victim, fileName, class)
+			if got.pos != want || !got.obs.positioned {
+				rep.AddDiff(vh.Diff{Component: "C17-schema-pos", Input: in, Impl: got.where + ": " + got.desc + " | " + got.msg, Model: model})
+				break
+			}
+			// rendering: file, line, shown source text and caret of the text the position belongs to
+			if c := renderComplaint(got.obs, fileName, []byte(txt)); c != "" {
+				rep.AddDiff(vh.Diff{Component: "C17-schema-pos", Input: in, Impl: c + " | " + got.desc, Model: model + ", rendered with the line number, left-trimmed source line and caret of that offset"})
+				break
+			}
+			if run == 0 {
+				first = got
+				continue
+			}
+			// file names are labels; the entry point only decides who reports the error
+			if got.obs.code != first.obs.code {
+				rep.AddDiff(vh.Diff{Component: "C17-schema-names", Input: in, Impl: got.where + ": " + got.desc, Model: "the error of the same schemas under distinct file names through Check(): " + first.desc})
 			}
 		}
 	}
